@@ -810,7 +810,9 @@ func hotStorm(c *core.Ctx, w *core.W, only string, sink func(core.Violation)) {
 			sink(v)
 		}
 	}
+	gCount := G
 	storm := func(name, kind string, n int, want []string, call func(i int) string, arg func(i int) []string) {
+		G := gCount
 		var wg sync.WaitGroup
 		start := make(chan struct{})
 		for g := 0; g < G; g++ {
@@ -872,6 +874,50 @@ func hotStorm(c *core.Ctx, w *core.W, only string, sink func(core.Violation)) {
 				}
 				storm(name, "Contains", nv, want, func(i int) string { return strconv.FormatBool(sh.rngs[k].Contains(sh.vers[i])) },
 					func(i int) []string { return []string{spec.rstr[k], spec.vstr[i]} })
+			}
+		}
+		// wide storm: 512 (thorough 2048) goroutines in flight at once, each comparing its own pair of LONG siblings (a
+		// common stem of ~30 identifiers, so a comparison stays in flight for a while) - fixed-size scratch rings, per-P
+		// pools and "at most N concurrent users" assumptions are exceeded here, not with 16 goroutines
+		{
+			type pair struct {
+				xs, ys string
+				x, y   eco.Ver
+			}
+			var pairs []pair
+			var wantW []string
+			stems := []string{"1.0.0-", "1.0.0.", "1.0-", "1.0_", "1.0~", "1.0+", "v1.0.0-", "1.0.0-rc.", "1.0.0a", "1.0."}
+			for k := 0; len(pairs) < 96 && k < 400; k++ {
+				stem := stems[k%len(stems)]
+				sep := []string{".", "-", "_", ""}[(k/len(stems))%4]
+				body := strings.Repeat(fmt.Sprintf("k%03d%s", k, sep), 30)
+				if sep == "" {
+					body = strings.Repeat(fmt.Sprintf("k%03d", k), 30) + "."
+				}
+				for _, t := range [][2]string{{"7", "8"}, {"9.x", "9"}, {"7", "7"}} {
+					xs, ys := stem+body+t[0], stem+body+t[1]
+					x, e1, p1 := sh.e.SafeNewVersion(xs)
+					y, e2, p2 := sh.e.SafeNewVersion(ys)
+					if p1 != nil || p2 != nil || e1 != nil || e2 != nil || x == nil || y == nil {
+						break
+					}
+					sx, _, _ := seq.e.SafeNewVersion(xs)
+					sy, _, _ := seq.e.SafeNewVersion(ys)
+					pairs = append(pairs, pair{xs, ys, x, y})
+					wantW = append(wantW, itoa(sx.Compare(sy)))
+				}
+			}
+			if len(pairs) > 0 {
+				saveIters := iters
+				gCount, iters = c.Scale(512, 2048), c.Scale(2000, 4000)
+				// many more Ps than cores: the kernel pre-empts the threads mid-comparison, so hundreds of calls are
+				// in flight at the same moment (with GOMAXPROCS = cores at most that many are)
+				prevP := runtime.GOMAXPROCS(256)
+				defer runtime.GOMAXPROCS(prevP)
+				storm(name, "Compare-wide", len(pairs), wantW, func(i int) string { return itoa(pairs[i].x.Compare(pairs[i].y)) },
+					func(i int) []string { return []string{pairs[i].xs, pairs[i].ys} })
+				gCount, iters = G, saveIters
+				runtime.GOMAXPROCS(prevP)
 			}
 		}
 		// the ecosystem value as a shared parser: different strings at the same time
